@@ -2,6 +2,7 @@ import IceModel.Gather
 import IceSpec.C18
 import IceSpec.C09
 import IceSpec.C11Gather
+import IceSpec.C03Gather
 import Driver.Util
 /-!
 Driver component `gather`: runs `IceModel.Gather.step` in lock-step with the real agent of
@@ -99,12 +100,12 @@ def parsePFlag (s : String) : PFlag :=
 
 def parseCandO (s : String) : Option CandO :=
   match s.splitOn ":" with
-  | [t, n, a, nm, pf, b, tag] =>
+  | [t, n, a, nm, pf, b, tag, rv] =>
     let ty? : Option CandType := if t == "h" then some .host else if t == "s" then some .srflx else if t == "r" then some .relay else none
     match ty?, NetType.ofTok? n, Addr.ofTok? a with
     | some ty, some net, some addr =>
       some ({ ty := ty, net := net, addr := addr, mdns := nm == "m", pflag := parsePFlag pf,
-              base := if b == "-" then none else Addr.ofTok? b }, tag.toNat?)
+              base := if b == "-" then none else Addr.ofTok? b, resolved := rv == "a" }, tag.toNat?)
     | _, _, _ => none
   | _ => none
 
@@ -160,13 +161,15 @@ def parseImpl (impl : String) : ImplLine :=
              nilOp := (g "nil").toNat?.getD 0, nils := (g "nils").toNat?.getD 0, late := (g "late").toNat?.getD 0,
              led := parseLed (g "led"), opens := (tot.head?.getD "").toNat?.getD 0,
              closes := ((tot.drop 1).head?.getD "").toNat?.getD 0, muxGets := parseMg (g "mg"),
-             held := (g "held").toNat?.getD 0, hidden := (g "hid").toNat?.getD 0, pend := parsePend (g "pend") } }
+             held := (g "held").toNat?.getD 0, hidden := (g "hid").toNat?.getD 0, pend := parsePend (g "pend"),
+             unresolved := (g "nr").toNat?.getD 0 } }
 
 /-! ### rendering of the model's observation -/
 
 def candTok (c : CandO) : String :=
   ":".intercalate [c.1.ty.tok, c.1.net.tok, c.1.addr.tok, (if c.1.mdns then "m" else "i"), c.1.pflag.tok,
-    (match c.1.base with | some b => b.tok | none => "-"), (match c.2 with | some g => toString g | none => "x")]
+    (match c.1.base with | some b => b.tok | none => "-"), (match c.2 with | some g => toString g | none => "x"),
+    (if c.1.resolved then "a" else "n")]
 
 def sortS (l : List String) : List String := l.mergeSort (fun a b => a ≤ b)
 
@@ -199,7 +202,7 @@ def lkTok (lk : List (Addr × Option Nat)) : String :=
 def render (continual : Bool) (r : String) (o : Obs) : String :=
   s!"r={r} st={stTok o.st} g={o.gen} fl={o.failed} t={o.now} c={joinOr (sortS (o.cands.map candTok))} " ++
   s!"ev={joinOr (sortS (o.evs.map candTok))} nil={o.nilOp} nils={o.nils} late={o.late} led={ledTok o.led} " ++
-  s!"tot={o.opens}/{o.closes} mg={mgTok o.muxGets} held={o.held} hid={o.hidden} pend={joinOr (sortS (o.pend.map (·.2.2)))}" ++
+  s!"tot={o.opens}/{o.closes} mg={mgTok o.muxGets} held={o.held} hid={o.hidden} nr={o.unresolved} pend={joinOr (sortS (o.pend.map (·.2.2)))}" ++
   (if continual then " lk=" ++ lkTok o.lk else "")
 
 def rtok : Rtok → String
@@ -250,7 +253,8 @@ def monitors (se : Session) (toks : List String) (il : ImplLine) : Session × Op
     let (v09, m09) := IceSpec.C09.check se.m09 opName il.r il.obs
     let v11 := IceSpec.C11Gather.nilViolation il.obs
     ({ se with ifs := ifs, m18 := m18, m09 := m09 }, v18,
-      (match v09 with | some w => [("C09", w)] | none => []) ++ (match v11 with | some w => [("C11", w)] | none => []))
+      (match v09 with | some w => [("C09", w)] | none => []) ++ (match v11 with | some w => [("C11", w)] | none => [])
+        ++ (match IceSpec.C03Gather.addrViolation il.obs with | some w => [("C03", w)] | none => []))
 
 def step (st : State) (toks : List String) (impl : String) : State × Res :=
   match toks with
